@@ -18,7 +18,10 @@
 (* term is a body (flow name A, B, the products A*B, B*A, the quotients A/B, B/A, or a *)
 (* name with a numeric factor in either position 2*A, A*2, A/2, 2/A: two-factor terms   *)
 (* are like terms only when spelled identically, A/B is not B/A; the sign / bracket     *)
-(* spelling applies to the whole two-factor term: -2*A registers minus two A)           *)
+(* spelling applies to the whole two-factor term: -2*A registers minus two A;           *)
+(* or a decorated name OTHER__A / _7__A = the variable A of another sector: a different *)
+(* flow from the local A - an exclusion of 'A' for S does not concern it, and an         *)
+(* exclusion of the decorated name does not concern the local A)                         *)
 (* with a sign / bracket                                                                *)
 (* spelling s1 ( s2 body ): +A, -A, (-A), -(A), -(-A) ...  A defining expression is    *)
 (* only supplied (he) for single-name flows.                                          *)
@@ -36,7 +39,8 @@ CONSTANTS
     MaxLen          \* bound on the length of a history
 
 FlowNames == {"A", "B"}
-Bodies    == {"A", "B", "A*B", "B*A", "A/B", "B/A", "2*A", "A*2", "A/2", "2/A"}
+Bodies    == {"A", "B", "A*B", "B*A", "A/B", "B/A", "2*A", "A*2", "A/2", "2/A", "OTHER__A", "_7__A"}
+Decorated == {"OTHER__A", "_7__A"}      \* full names of ANOTHER sector's variable A (code form, alias form)
 (* Texts of right-hand sides of a flow variable.  The library's placeholder spellings    *)
 (* '' and '0.0' are "empty / identically zero": AddCashFlow(term, eqn) may replace them.   *)
 (* Everything else is an existing definition and is never overwritten - whatever its      *)
@@ -81,12 +85,12 @@ TermText(a) == a.s1 \o (IF a.br THEN "(" \o a.s2 \o a.body \o ")" ELSE a.body)
 (* Den.. below are K-fold values and exact integers (small: everything stays far below     *)
 (* 2^31).  Separation (verified by exhaustive enumeration, harness/checks/c06.py           *)
 (* check_separation): let d be the difference of the coefficient vectors of two ledgers    *)
-(* over the ten bodies and LAG_F, with sum |d_i| <= 10.  Then the two ledgers have the same *)
+(* over the twelve bodies and LAG_F, with sum |d_i| <= 8.   Then the two ledgers have the same *)
 (* value under BOTH valuations only if they are the same flow value identically (A*B with  *)
 (* B*A; A, 2*A, A*2, A/2 combined with weights 1, 2, 2, 1/2).  In particular A/B, B/A, 2/A, *)
 (* A/2 are all told apart, and a lost or flipped sign on any term is seen.                  *)
-Vals == << [A |-> 12,  B |-> -5, L |-> 1009,  K |-> 60, Z |-> 3,  W |-> 8],
-           [A |-> -15, B |-> 4,  L |-> -1013, K |-> 60, Z |-> -4, W |-> -6] >>
+Vals == << [A |-> 12,  B |-> -5, L |-> 1009,  P |-> 37,  Q |-> -23, K |-> 60, Z |-> 3,  W |-> 8],
+           [A |-> -15, B |-> 4,  L |-> -1013, P |-> -41, Q |-> 29,  K |-> 60, Z |-> -4, W |-> -6] >>
 
 ASSUME \A i \in 1..2 : LET v == Vals[i] IN          \* the quotients are exact
           /\ ((v.K * v.A) \div v.B) * v.B = v.K * v.A
@@ -105,6 +109,8 @@ DenBody(b, v) ==            \* K-fold value of a flow term
       [] b = "A*2" -> v.K * v.A * 2
       [] b = "A/2" -> (v.K * v.A) \div 2
       [] b = "2/A" -> (v.K * 2) \div v.A
+      [] b = "OTHER__A" -> v.K * v.P
+      [] b = "_7__A"    -> v.K * v.Q
 DenLag(v) == v.K * v.L
 
 DenDef(d, v) ==             \* 4-fold value of a definition text (exact integers)
